@@ -17,6 +17,9 @@ import OFV.Proofs.C02Real
 import OFV.Proofs.C02PauliHerm
 import OFV.Proofs.C02MajComm
 import OFV.Proofs.C02HermIO
+import OFV.Proofs.C02Matrix
+import OFV.Proofs.C02HermBoson
+import OFV.Proofs.C02HermExact
 
 namespace OFV.C02
 open OFV OFV.Model OFV.Model.C02 OFV.Proofs.C02
@@ -370,6 +373,182 @@ theorem is_hermitian_fermion_complete (D : Nat) (hD : 0 < D) (tol : Rat) (ht : 0
     Proofs.C03.normal_ordered_exact_regime_aux D hD tol (le_of_lt ht) h1 (hcFermion a) lh]
   exact (is_hermitian_fermion_iff a wa hv).1 hh t
 
+/-- **`is_hermitian(FermionOperator)` decides Hermiticity in the Spec (executed function, real
+tolerance)**: for lattice inputs `(1/D)ℤ[i]`, `0 < tol`, `tol·D ≤ 1`, and under the decidable
+exact-regime hypothesis that coefficients of the two normal-ordered dictionaries which `==` calls
+close are equal, the coded test is True IF AND ONLY IF `⟨out|A|s⟩ = conj ⟨s|A|out⟩` on all Fock
+basis states. -/
+theorem is_hermitian_fermion_iff_tol (D : Nat) (hD : 0 < D) (tol : Rat) (ht : 0 < tol) (h1 : tol * D ≤ 1)
+    (a : Op) (wa : Dict.WF a) (hv : ∀ e ∈ a, ∀ f ∈ e.1, f.2 < 2) (la : ∀ e ∈ a, Proofs.C03.Lat D e.2)
+    (hexact : ∀ t, Spec.C02.coefClose tol
+        (Dict.get? (C03.normalOrdered tol .fermion a) t)
+        (Dict.get? (C03.normalOrdered tol .fermion (hcFermion a)) t) = true →
+      Dict.getD (C03.normalOrdered tol .fermion a) t 0 =
+        Dict.getD (C03.normalOrdered tol .fermion (hcFermion a)) t 0) :
+    isHermitianFermion tol a = true ↔ ∀ s out, Spec.melF a out s = (Spec.melF a s out).conj := by
+  constructor
+  · intro h
+    unfold isHermitianFermion at h
+    rw [isclose_iff_spec] at h
+    have lh : ∀ e ∈ hcFermion a, Proofs.C03.Lat D e.2 := by
+      rw [Proofs.C03.hcFermion_eq_map a wa hv]
+      intro e he
+      obtain ⟨x, hx, rfl⟩ := List.mem_map.1 he
+      obtain ⟨m, n, h1', h2'⟩ := la x hx
+      exact ⟨m, -n, by simp [GQ.conj, h1'], by simp [GQ.conj, h2']; ring⟩
+    apply (is_hermitian_fermion_iff a wa hv).2
+    intro t
+    rw [← Proofs.C03.normal_ordered_exact_regime_aux D hD tol (le_of_lt ht) h1 a la,
+      ← Proofs.C03.normal_ordered_exact_regime_aux D hD tol (le_of_lt ht) h1 (hcFermion a) lh]
+    exact hexact t (h t)
+  · exact is_hermitian_fermion_complete D hD tol ht h1 a wa hv la
+
+/-! ## `is_hermitian(BosonOperator)`
+
+The polynomial representation of the Spec (`b† ↦ x·`, `b ↦ ∂`) carries no inner product, so the
+statement decided is "the operator and its formal adjoint `hermitian_conjugated(A)` (terms reversed,
+actions flipped, coefficients conjugated, re-sorted by index) denote the same operator". -/
+
+/-- `hermitian_conjugated(BosonOperator)` stores only valid action codes and stays on the
+coefficient lattice of its argument. -/
+theorem hermitian_conjugated_boson_wellformed (D : Nat) (a : Op) (hv : ∀ e ∈ a, ∀ f ∈ e.1, f.2 < 2)
+    (la : ∀ e ∈ a, Proofs.C03.Lat D e.2) :
+    (∀ e ∈ hcBoson a, ∀ f ∈ e.1, f.2 < 2) ∧ (∀ e ∈ hcBoson a, Proofs.C03.Lat D e.2) :=
+  ⟨Proofs.C02.hcBoson_valid a hv, Proofs.C02.hcBoson_lat D a la⟩
+
+/-- **`is_hermitian(BosonOperator)`, tolerance 0 form**: `A` and `hermitian_conjugated(A)` have the
+same Spec coefficients `⟨x^out| · |x^s⟩` on all canonical exponent vectors IF AND ONLY IF the two
+normal-ordered dictionaries `is_hermitian` compares have equal coefficients. -/
+theorem is_hermitian_boson_iff (a : Op) (hv : ∀ e ∈ a, ∀ f ∈ e.1, f.2 < 2) :
+    (∀ s out, Proofs.C03.Trimmed s → Proofs.C03.Trimmed out →
+      Spec.GV.coeff (Spec.applyOp .boson a s) out = Spec.GV.coeff (Spec.applyOp .boson (hcBoson a) s) out) ↔
+      ∀ t, Dict.getD (C03.normalOrdered 0 .boson a) t 0 =
+        Dict.getD (C03.normalOrdered 0 .boson (hcBoson a)) t 0 :=
+  Proofs.C03.canonicity_boson_iff a (hcBoson a) hv (Proofs.C02.hcBoson_valid a hv)
+
+/-- completeness of the executed test in the exact regime (lattice inputs, `0 < tol`, `tol·D ≤ 1`). -/
+theorem is_hermitian_boson_complete (D : Nat) (hD : 0 < D) (tol : Rat) (ht : 0 < tol) (h1 : tol * D ≤ 1)
+    (a : Op) (hv : ∀ e ∈ a, ∀ f ∈ e.1, f.2 < 2) (la : ∀ e ∈ a, Proofs.C03.Lat D e.2)
+    (hh : ∀ s out, Proofs.C03.Trimmed s → Proofs.C03.Trimmed out →
+      Spec.GV.coeff (Spec.applyOp .boson a s) out = Spec.GV.coeff (Spec.applyOp .boson (hcBoson a) s) out) :
+    isHermitianBoson tol a = true := by
+  unfold isHermitianBoson
+  apply isclose_of_coefficients_equal tol ht
+  intro t
+  rw [Proofs.C02.normal_ordered_exact_regime_boson D hD tol (le_of_lt ht) h1 a la,
+    Proofs.C02.normal_ordered_exact_regime_boson D hD tol (le_of_lt ht) h1 (hcBoson a)
+      (Proofs.C02.hcBoson_lat D a la)]
+  exact (is_hermitian_boson_iff a hv).1 hh t
+
+/-- **`is_hermitian(BosonOperator)` (executed function, real tolerance)**: on lattice inputs, under
+the decidable exact-regime hypothesis that coefficients which `==` calls close are equal, the coded
+test is True IF AND ONLY IF the operator and its formal adjoint denote the same Spec operator. -/
+theorem is_hermitian_boson_iff_tol (D : Nat) (hD : 0 < D) (tol : Rat) (ht : 0 < tol) (h1 : tol * D ≤ 1)
+    (a : Op) (hv : ∀ e ∈ a, ∀ f ∈ e.1, f.2 < 2) (la : ∀ e ∈ a, Proofs.C03.Lat D e.2)
+    (hexact : ∀ t, Spec.C02.coefClose tol
+        (Dict.get? (C03.normalOrdered tol .boson a) t)
+        (Dict.get? (C03.normalOrdered tol .boson (hcBoson a)) t) = true →
+      Dict.getD (C03.normalOrdered tol .boson a) t 0 =
+        Dict.getD (C03.normalOrdered tol .boson (hcBoson a)) t 0) :
+    isHermitianBoson tol a = true ↔
+      ∀ s out, Proofs.C03.Trimmed s → Proofs.C03.Trimmed out →
+        Spec.GV.coeff (Spec.applyOp .boson a s) out =
+          Spec.GV.coeff (Spec.applyOp .boson (hcBoson a) s) out := by
+  constructor
+  · intro h
+    unfold isHermitianBoson at h
+    rw [isclose_iff_spec] at h
+    apply (is_hermitian_boson_iff a hv).2
+    intro t
+    rw [← Proofs.C02.normal_ordered_exact_regime_boson D hD tol (le_of_lt ht) h1 a la,
+      ← Proofs.C02.normal_ordered_exact_regime_boson D hD tol (le_of_lt ht) h1 (hcBoson a)
+        (Proofs.C02.hcBoson_lat D a la)]
+    exact hexact t (h t)
+  · exact is_hermitian_boson_complete D hD tol ht h1 a hv la
+
+/-! ## `is_hermitian` without the exactness hypothesis: bounded lattice coefficients -/
+
+/-- **`==` is exact on bounded lattice dictionaries**: coefficients on `(1/D)ℤ[i]`, magnitudes `≤ M`,
+`tol·D·M ≤ 1` — then the coefficient test of `isclose` (absolute for one-sided terms, relative to
+`max(1,|x|,|y|)` for shared ones) accepts a term only if the two coefficients are EQUAL. -/
+theorem isclose_exact_on_bounded_lattice (D M : Nat) (hD : 0 < D) (hM : 0 < M) (tol : Rat) (ht : 0 < tol)
+    (h1 : tol * ((D * M : Nat) : Rat) ≤ 1) (X Y : Op)
+    (lX : ∀ e ∈ X, Proofs.C03.Lat D e.2) (lY : ∀ e ∈ Y, Proofs.C03.Lat D e.2)
+    (bX : ∀ t, (Dict.getD X t 0).normSq ≤ (M : Rat) * M)
+    (bY : ∀ t, (Dict.getD Y t 0).normSq ≤ (M : Rat) * M) :
+    isclose tol X Y = true ↔ ∀ t, Dict.getD X t 0 = Dict.getD Y t 0 := by
+  constructor
+  · intro h t
+    rw [isclose_iff_spec] at h
+    exact Proofs.C02.isclose_lat_eq D M hD hM tol ht h1 X Y lX lY bX bY t (h t)
+  · exact isclose_of_coefficients_equal tol ht X Y
+
+/-- **`is_hermitian(FermionOperator)` decides Hermiticity (executed function, real tolerance, no
+exactness hypothesis)**: lattice inputs `(1/D)ℤ[i]`, the two normal-ordered dictionaries have
+coefficients of magnitude `≤ M`, `tol·D·M ≤ 1` (e.g. `tol = 1e-8`, `D = 2^16`, `M = 2^10`). -/
+theorem is_hermitian_fermion_iff_tol_bounded (D M : Nat) (hD : 0 < D) (hM : 0 < M) (tol : Rat) (ht : 0 < tol)
+    (h1 : tol * ((D * M : Nat) : Rat) ≤ 1)
+    (a : Op) (wa : Dict.WF a) (hv : ∀ e ∈ a, ∀ f ∈ e.1, f.2 < 2) (la : ∀ e ∈ a, Proofs.C03.Lat D e.2)
+    (bX : ∀ t, (Dict.getD (C03.normalOrdered tol .fermion a) t 0).normSq ≤ (M : Rat) * M)
+    (bY : ∀ t, (Dict.getD (C03.normalOrdered tol .fermion (hcFermion a)) t 0).normSq ≤ (M : Rat) * M) :
+    isHermitianFermion tol a = true ↔ ∀ s out, Spec.melF a out s = (Spec.melF a s out).conj := by
+  have hd := Proofs.C02.tolD_le D M hM tol ht h1
+  have lh : ∀ e ∈ hcFermion a, Proofs.C03.Lat D e.2 := by
+    rw [Proofs.C03.hcFermion_eq_map a wa hv]
+    intro e he
+    obtain ⟨x, hx, rfl⟩ := List.mem_map.1 he
+    obtain ⟨m, n, h1', h2'⟩ := la x hx
+    exact ⟨m, -n, by simp [GQ.conj, h1'], by simp [GQ.conj, h2']; ring⟩
+  have sim := fun (b : Op) (lb : ∀ e ∈ b, Proofs.C03.Lat D e.2) =>
+    (Proofs.C03.normalOrdered_sim D hD tol (le_of_lt ht) hd .fermion (Proofs.C03.hk_fermion D)
+      (fun _ c hc => Proofs.C03.lat_mul_one D c hc) b lb).2.2.1
+  apply is_hermitian_fermion_iff_tol D hD tol ht hd a wa hv la
+  intro t h
+  exact Proofs.C02.isclose_lat_eq D M hD hM tol ht h1 _ _ (sim a la) (sim _ lh) bX bY t h
+
+/-- the same for `is_hermitian(BosonOperator)` (statement: `A` and its formal adjoint denote the
+same operator in the polynomial Spec). -/
+theorem is_hermitian_boson_iff_tol_bounded (D M : Nat) (hD : 0 < D) (hM : 0 < M) (tol : Rat) (ht : 0 < tol)
+    (h1 : tol * ((D * M : Nat) : Rat) ≤ 1)
+    (a : Op) (hv : ∀ e ∈ a, ∀ f ∈ e.1, f.2 < 2) (la : ∀ e ∈ a, Proofs.C03.Lat D e.2)
+    (bX : ∀ t, (Dict.getD (C03.normalOrdered tol .boson a) t 0).normSq ≤ (M : Rat) * M)
+    (bY : ∀ t, (Dict.getD (C03.normalOrdered tol .boson (hcBoson a)) t 0).normSq ≤ (M : Rat) * M) :
+    isHermitianBoson tol a = true ↔
+      ∀ s out, Proofs.C03.Trimmed s → Proofs.C03.Trimmed out →
+        Spec.GV.coeff (Spec.applyOp .boson a s) out =
+          Spec.GV.coeff (Spec.applyOp .boson (hcBoson a) s) out := by
+  have hd := Proofs.C02.tolD_le D M hM tol ht h1
+  have sim := fun (b : Op) (lb : ∀ e ∈ b, Proofs.C03.Lat D e.2) =>
+    (Proofs.C03.normalOrdered_sim D hD tol (le_of_lt ht) hd .boson (Proofs.C03.hk_boson D)
+      (fun _ c hc => Proofs.C03.lat_mul_one D c hc) b lb).2.2.1
+  apply is_hermitian_boson_iff_tol D hD tol ht hd a hv la
+  intro t h
+  exact Proofs.C02.isclose_lat_eq D M hD hM tol ht h1 _ _ (sim a la)
+    (sim _ (Proofs.C02.hcBoson_lat D a la)) bX bY t h
+
+/-- **`is_hermitian(QuadOperator)`, soundness** (the coded test does not normal-order — known
+finding F02e — so only this direction holds): on bounded lattice inputs, if the coded test is True
+then `A` and `hermitian_conjugated(A)` have the same coefficient on EVERY term, hence the same
+Spec coefficients `⟨x^out| · |x^s⟩` for every `ħ` and all exponent vectors. -/
+theorem is_hermitian_quad_sound (D M : Nat) (hD : 0 < D) (hM : 0 < M) (tol : Rat) (ht : 0 < tol)
+    (h1 : tol * ((D * M : Nat) : Rat) ≤ 1) (hbar : GQ)
+    (a : Op) (wa : Dict.WF a) (la : ∀ e ∈ a, Proofs.C03.Lat D e.2)
+    (bX : ∀ t, (Dict.getD a t 0).normSq ≤ (M : Rat) * M)
+    (bY : ∀ t, (Dict.getD (hcQuad a) t 0).normSq ≤ (M : Rat) * M)
+    (h : isHermitianQuad tol a = true) :
+    (∀ t, Dict.getD a t 0 = Dict.getD (hcQuad a) t 0) ∧
+    ∀ s out, Spec.GV.coeff (Spec.applyOp (.quad hbar) a s) out =
+      Spec.GV.coeff (Spec.applyOp (.quad hbar) (hcQuad a) s) out := by
+  unfold isHermitianQuad at h
+  have he := (isclose_exact_on_bounded_lattice D M hD hM tol ht h1 a (hcQuad a) la
+    (Proofs.C02.hcQuad_lat D a la) bX bY).1 h
+  exact ⟨he, fun s out => Proofs.C03.applyOp_coeff_congr (.quad hbar) (Spec.actQuad hbar) (fun _ _ => rfl)
+    a (hcQuad a) wa (Proofs.C02.wf_hcQuad a) he s out⟩
+
+-- non-vacuity: EQ_TOLERANCE with D = 2^16, M = 2^10
+example : Generated.eqTolerance * ((2 ^ 16 * 2 ^ 10 : Nat) : Rat) ≤ 1 := by
+  norm_num [Generated.eqTolerance]
+
 /-! ## `is_hermitian(QubitOperator)` — Pauli strings are Hermitian and linearly independent -/
 
 /-- **distinct canonical Pauli strings are linearly independent** on `n` qubits (trace
@@ -475,5 +654,20 @@ theorem is_hermitian_io_sound {A : Type} [Ring A] (I : Proofs.C03.Interp A)
       Proofs.C03.denIO I n c.conj (hcOneBody n one) (hcTwoBody n two) :=
   Proofs.C03.isHermitianIO_sound I car_same car_sq tol n c one two hlen
     (Proofs.C03.hexact_of_ioExactB tol n c one two hlen hx) h
+
+/-! ## `is_hermitian` / `hermitian_conjugated` on dense and sparse matrices -/
+
+/-- `hermitian_conjugated(M)[p, q] = conj M[q, p]` (flattened `n × n` matrix, all `p, q < n`). -/
+theorem hermitian_conjugated_matrix_entry (n : Nat) (M : List GQ) (p q : Nat) (hp : p < n) (hq : q < n) :
+    (hcMatrix n M).getD (p * n + q) 0 = (M.getD (q * n + p) 0).conj :=
+  getD_hcMatrix n M p q hp hq
+
+/-- **`is_hermitian(matrix)`** (`max |M - M†| < EQ_TOLERANCE`, dense or sparse) is True exactly
+when every entry satisfies `|M[p,q] - conj M[q,p]| < tol` — for every size and every matrix. -/
+theorem is_hermitian_matrix_iff (tol : Rat) (n : Nat) (M : List GQ) (hlen : M.length = n * n) :
+    isHermitianMatrix tol n M = true ↔
+      (0 < tol ∧ ∀ p q, p < n → q < n →
+        (M.getD (p * n + q) 0 - (M.getD (q * n + p) 0).conj).normSq < tol * tol) :=
+  isHermitianMatrix_iff tol n M hlen
 
 end OFV.C02
